@@ -218,7 +218,7 @@ func genC05Join(rt *rapid.T) *C05Join {
 		}
 	}
 	n := rapid.IntRange(0, 4).Draw(rt, "n")
-	vc := &valConfig{maxDepth: 1, noPointers: true}
+	vc := &valConfig{maxDepth: 1}
 	for i := 0; i < n; i++ {
 		switch s.Shape {
 		case "ints":
